@@ -1,4 +1,5 @@
 import Bpmn.Props.C03
+import Bpmn.Props.EngineSteps
 open Bpmn.Props.C03
 #print axioms C03_holds
 #print axioms distribute_partition
@@ -6,3 +7,5 @@ open Bpmn.Props.C03
 #print axioms pg_holds_until_full
 #print axioms pg_release
 #print axioms pg_run
+#print axioms Bpmn.Props.EngineSteps.par_step_holds
+#print axioms Bpmn.Props.EngineSteps.par_step_releases_all
